@@ -40,6 +40,7 @@ LensOfRuns(runs, n) == [j \in 1..n |-> LET k == CHOOSE k \in 1..Len(runs) : runs
 
 ReadBook(b, pos) ==
   IF RB(b, pos, 24) # 5653314 THEN Fail(pos)
+  ELSE IF RB(b, pos + 40, 24) > 70000 THEN Fail(pos)              \* (a bound of this reader, not of the format: books beyond it are not judged valid)
   ELSE LET dim == RB(b, pos + 24, 16)  entries == RB(b, pos + 40, 24)  ordered == Bit(b, pos + 64)  p0 == pos + 65
            L == IF ordered = 1
                 THEN LET o == OrderedRead(b, p0 + 5, 0, entries, RB(b, p0, 5) + 1) IN
